@@ -370,6 +370,8 @@ impl HttpServer {
         // We only iterate over first `event_count` events and discard empty elements
         // at the end of the array.
         for e in events[..event_count].iter() {
+            #[cfg(feature = "verif_hooks")]
+            crate::verif::tick("HttpServer::requests");
             // Check the file descriptor which produced the notification `e`.
             // It could be that we need to shutdown, or have a new connection, or
             // one of our open connections is ready to exchange data with a client.
@@ -478,6 +480,8 @@ impl HttpServer {
     pub fn flush_outgoing_writes(&mut self) {
         for (_, connection) in self.connections.iter_mut() {
             while connection.state == ClientConnectionState::AwaitingOutgoing {
+                #[cfg(feature = "verif_hooks")]
+                crate::verif::tick("HttpServer::flush_outgoing_writes");
                 if let Err(e) = connection.write() {
                     if let ServerError::ConnectionError(ConnectionError::InvalidWrite) = e {
                         // Nothing is logged since an InvalidWrite means we have successfully
@@ -656,6 +660,29 @@ impl HttpServer {
                 epoll::EpollEvent::new(epoll::EventSet::IN, stream_fd as u64),
             )
             .map_err(ServerError::IOError)
+    }
+}
+
+#[cfg(feature = "verif_hooks")]
+impl HttpServer {
+    /// Read-only snapshot of the server's connection table, sorted by descriptor.
+    pub fn verif_probe(&self) -> Vec<crate::verif::ClientProbe> {
+        let mut probes: Vec<crate::verif::ClientProbe> = self
+            .connections
+            .iter()
+            .map(|(fd, client)| crate::verif::ClientProbe {
+                fd: *fd,
+                state: match client.state {
+                    ClientConnectionState::AwaitingIncoming => 0,
+                    ClientConnectionState::AwaitingOutgoing => 1,
+                    ClientConnectionState::Closed => 2,
+                },
+                in_flight: client.in_flight_response_count,
+                connection: client.connection.verif_probe(),
+            })
+            .collect();
+        probes.sort_by_key(|probe| probe.fd);
+        probes
     }
 }
 
